@@ -228,9 +228,22 @@ class Check(CheckBase):
             preds = [r.randbytes(r.choice([1, 2, 3, 5, 7, 9, 13, mx + 1, mx + 2, 3 * mx + 3])),
                      r.randbytes(r.choice([6, 10, 11, 17, 4 * mx + 1, 2 * mx + 7]))]
             dirs = []
+            # a predecessor whose reported size differs from what can be read (procfs): the padding behind it must follow
+            # the bytes actually streamed
+            procfile = '/proc/version'
+            use_proc = False
+            try:
+                use_proc = case['seed'] % 3 == 0 and os.stat(procfile).st_size == 0 and len(Path(procfile).read_bytes()) % 4 != 0
+            except OSError:
+                pass
             for i, p in enumerate(preds):
                 d = os.path.join(scratch, f's{i}')
                 os.makedirs(d)
+                if use_proc and i == 1:
+                    os.symlink(procfile, os.path.join(d, 'a-pred'))
+                    dirs.append(d)
+                    Path(d, 'z-big').write_bytes(big)
+                    continue
                 Path(d, 'a-pred').write_bytes(p)
                 Path(d, 'z-big').write_bytes(big)
                 dirs.append(d)
